@@ -7,8 +7,39 @@ instance.  R: every behaviour replayed; after each action every object's shape, 
 identity = byte address) is compared with the spec state, and the same NumPy operation is applied to every coefficient
 slice (d,p) of the real operand as a cross-check of the spec operator.
 """
+import numpy
 from common import *
 import utpm_replay as U
+
+
+def fft_axes(rep, algopy, seed):
+    """fft / ifft along every axis (negative ones included) and with the length argument n: NumPy on every coefficient slice"""
+    from algopy import UTPM
+    rng = numpy.random.RandomState((seed + 9) % 2 ** 31)
+    for shp in ((4,), (3, 4), (2, 3, 2)):
+        for cplx in (False, True):
+            D, P = 2, 2
+            data = rng.randint(-3, 4, size=(D, P) + shp).astype(float)
+            if cplx:
+                data = data + 1j * rng.randint(-3, 4, size=(D, P) + shp)
+            x = UTPM(data.copy())
+            for ax in range(-len(shp), len(shp)):
+                for n in (None, shp[ax], 2, shp[ax] + 2):
+                    for nm, f, npf in (("fft", algopy.fft.fft, numpy.fft.fft), ("ifft", algopy.fft.ifft, numpy.fft.ifft)):
+                        rep.case(("fft-axes", nm, shp, cplx, ax, n), nontrivial=True)
+                        kw = {"axis": ax} if n is None else {"axis": ax, "n": n}
+                        ref = numpy.array([[npf(data[d, p], **kw) for p in range(P)] for d in range(D)])
+                        try:
+                            y = f(x, **kw)
+                            if y.data.shape != ref.shape or not numpy.allclose(y.data, ref, rtol=1e-12, atol=1e-12):
+                                rep.violation("%s along axis %d%s differs from numpy.fft.%s on the coefficient slices" % (nm, ax, "" if n is None else " with n", nm), {"shape": list(shp), "n": n})
+                        except Exception as ex:
+                            if n is not None and n != shp[ax]:
+                                rep.violation("%s with n different from the length of the axis raises %s" % (nm, type(ex).__name__), {"shape": list(shp), "axis": ax, "n": n})
+                            else:
+                                rep.violation("%s along axis %d raises %s" % (nm, ax, type(ex).__name__), {"shape": list(shp), "n": n, "what": repr(ex)[-200:]})
+            if not numpy.array_equal(x.data, data):
+                rep.violation("fft modifies its argument", {"shape": list(shp)})
 
 
 def run(rep, tier, seed):
@@ -36,6 +67,7 @@ def run(rep, tier, seed):
                  simulate=3000, depth=5),
         ]
     U.machine_check(rep, configs, "C13", variants=(0, 1))
+    fft_axes(rep, load_algopy(), seed)
     U.self_test(rep)
     rep.assumptions += ["NumPy itself is the executable reference for each slice operation (cross-check of the NDA operators)",
                         "reshape is generated only where NumPy's view/copy choice is unambiguous (contiguous data -> view, transposed matrix -> copy)"]
